@@ -22,6 +22,7 @@ Definition dispatch (cmd : string) (input : string) : string :=
   | "codegen-a64" => run_codegen_a64 input
   | "fun2core" => run_fun2core input
   | "subst" => run_subst input
+  | "subst-corr" => run_subst_corr input
   | "rt" => run_rt input
   | "codegen-rv" => run_codegen_rv input
   | "sem-rv" => run_sem_rv input
